@@ -14,8 +14,9 @@
                           difference on suitable tables (`..._refuted`, `C17_mixup_panics`).
    Fixed in /repo while building this (both found by the oracle on the real library): enumeration values in element text
    were never checked; attributes unknown to the target version's element type were skipped. *)
-From AV Require Import Base.Bytes Base.Outcome Hash.HashModel Tree.Heap Tree.Ops Tree.Compat Tree.CompatSpec
-  Tree.CompatProofs1 Tree.CompatProofs2 Tree.CompatProofs3 Tree.CompatProofs4 Tree.Serialize.
+From AV Require Import Base.Bytes Base.Outcome Hash.HashModel Spec.SpecReal Tree.Heap Tree.Ops Tree.Compat Tree.CompatSpec
+  Tree.CompatProofs1 Tree.CompatProofs2 Tree.CompatProofs3 Tree.CompatProofs4 Tree.Serialize
+  Tree.CompatTyped Tree.CompatProofs5 Tree.CompatReal.
 From AV Require Xml.Parser.
 Open Scope list_scope.
 Open Scope N_scope.
@@ -103,3 +104,46 @@ Proof. exact mixup_panics. Qed.
 Theorem C17_mask_refuted :
   exists T w f v errs mask, version_bit v /\ f_check T w f v = Val (errs, mask) /\ errs <> [] /\ N.land mask v <> 0.
 Proof. exact mask_refuted. Qed.
+
+(* ================= the K classes are impossible in typed worlds; on the real tables unconditionally =================
+   PairOK T  : whenever a datatype lists one name for two version sets, both listed types have the same datatype or both
+               datatypes have no sub-elements (every lookup of the walk and of strict validation reads only the datatype)
+   Typed T w : every element's parent link points to the element that lists it, and its stored datatype is the one its
+               parent's stored type lists for its name in SOME version set within u32 (what create / load establish;
+               move / copy keep the stored type and may break it: C07)
+   RootOk w f: the root element of the file's model is nobody's child *)
+
+(* [U] in a typed world over tables with PairOK none of the three classes occurs *)
+Theorem C17_no_known_typed : forall (T : tables) (w : world) (f v : N),
+  PairOK T -> Typed T w -> RootOk w f -> NoKnown T w f v.
+Proof. exact typed_no_known. Qed.
+
+(* [U] hence exactness without the K hypotheses *)
+Theorem C17_exact_typed : forall (T : tables) (w : world) (f v : N),
+  PairOK T -> Typed T w -> RootOk w f ->
+  forall r : cres, f_check T w f v = Val r -> (fst r = [] <-> ValidIn T w f v).
+Proof. exact f_check_exact_typed. Qed.
+
+(* [F] the regenerated real tables satisfy PairOK (sweep over all datatypes, Gen/CompatSweep*.v) *)
+Theorem C17_pair_ok_real : PairOK RT.
+Proof. exact PairOK_real. Qed.
+
+(* [U over worlds, F over the tables] on the real tables the check is exact in every typed world *)
+Theorem C17_exact_real : forall (w : world) (f v : N) (r : cres),
+  Typed RT w -> RootOk w f -> f_check RT w f v = Val r -> (fst r = [] <-> ValidIn RT w f v).
+Proof. exact f_check_exact_real. Qed.
+
+(* [U over worlds, F over the tables] the `unwrap` of the mask lookup (stored type, index list of the target type) always has a
+   mask on the real tables in a typed world: the walk cannot panic there *)
+Theorem C17_unwrap_safe_real : forall (w : world) (f v : N) (ty : N * N) (i : id) (n : node) (c : id) (cn : node) (tc : N * N) (ixs : list N),
+  Typed RT w ->
+  Vis RT w f v ty i -> w_nodes w i = Some n -> In (CElem c) (n_content n) -> w_nodes w c = Some cn -> in_file f cn = true ->
+  (find_sub_element RT ty (n_name cn) v = Val (Some (tc, ixs)) \/ find_sub_element RT ty (n_name cn) U32MAX = Val (Some (tc, ixs))) ->
+  exists m, get_sub_element_version_mask RT (n_type n) ixs = Val (Some m).
+Proof. exact mask_lookup_some_real. Qed.
+
+(* [U] what find_sub_element returns is an entry of the listing sub_element_spec_iter drains (same name, that type) *)
+Theorem C17_lookup_listed : forall (T : tables) (fuel : nat) (ty name ver : N) (et : N * N) (ixs : list N) (items : list Spec.SpecProofs.sub_item),
+  find_sub T fuel ty name ver = Val (Some (et, ixs)) -> list_sub T fuel ty = Val items ->
+  exists it, In it items /\ Spec.SpecProofs.it_name it = name /\ Spec.SpecProofs.it_type it = et.
+Proof. exact find_sub_listed. Qed.
